@@ -280,6 +280,25 @@ def decodeSg : Val → Option (Option Nat)
   | _ => none
 def decodePg (pgs : Str) : Option Str := if pgs = noneStr then none else some pgs
 
+/-- `int(kv[0])` of a link name -/
+def keyInt : Key → Option Int
+  | .n i => some i
+  | .s _ => none
+def insertByInt (e : Int × PyTree) : List (Int × PyTree) → List (Int × PyTree)
+  | [] => [e]
+  | f :: r => if e.1 ≤ f.1 then e :: f :: r else f :: insertByInt e r
+def sortByInt (l : List (Int × PyTree)) : List (Int × PyTree) := l.foldr insertByInt []
+
+/-- `[dict2atom(atom) for _, atom in sorted(dictionary["atoms"].items(), key=lambda kv: int(kv[0]))]` -/
+def atomsInOrder (items : List (Key × PyTree)) : Option (List AtomRec) :=
+  match items.mapM (fun kv => (keyInt kv.1).map fun i => (i, kv.2)) with
+  | none => none
+  | some ia => (sortByInt ia).mapM fun e => dict2atom e.2
+
+/-- the reader before the fix: atoms in the order the file lists them (alphabetical link names) -/
+def atomsInFileOrderPreFix (items : List (Key × PyTree)) : Option (List AtomRec) :=
+  items.mapM fun kv => dict2atom kv.2
+
 def dict2phase (t : PhaseTables) (id : Int) (d : PyTree) : Option PhaseRec :=
   match getDict d with
   | none => none
@@ -287,11 +306,12 @@ def dict2phase (t : PhaseTables) (id : Int) (d : PyTree) : Option PhaseRec :=
     match lookupK (kS "name") it, lookupK (kS "space_group") it, lookupK (kS "point_group") it,
           lookupK (kS "color") it, (lookupK (kS "structure") it).bind getDict with
     | some (.leaf (.str name)), some (.leaf sgv), some (.leaf (.str pgs)), some (.leaf (.str color)), some st =>
-      let pg : Option Str := decodePg pgs
+      -- `if point_group == "None" or space_group is not None: point_group = None`
+      let pgOf (sg : Option Nat) : Option Str := if sg.isSome then none else decodePg pgs
       match decodeSg sgv, (lookupK (kS "lattice") st).bind getDict, (lookupK (kS "atoms") st).bind getDict with
       | some sg, some lat, some atoms =>
-        match mkPhase t sg pg, (lookupK (kS "abcABG") lat).bind getArr, (lookupK (kS "baserot") lat).bind getArr,
-              atoms.mapM (fun kv => dict2atom kv.2) with
+        match mkPhase t sg (pgOf sg), (lookupK (kS "abcABG") lat).bind getArr, (lookupK (kS "baserot") lat).bind getArr,
+              atomsInOrder atoms with
         | some (sg', pg'), some abc, some br, some ats =>
           some { id := id, name := name, sg := sg', pg := pg', color := color, abcABG := abc, baserot := br,
                  atoms := ats }
